@@ -1,0 +1,309 @@
+//! Verification hooks for the command line tool (only compiled with the `verif` cargo feature).
+//!
+//! * [`VerifAtomicI32`]: a drop-in replacement for the exit-status `AtomicI32` whose every
+//!   operation is a *schedule point* and is appended to a trace file.
+//! * a schedule controller: `STYLUA_VERIF_SCHED=O,M,W1,...` forces the order in which thread
+//!   classes (`M` main, `O` output thread, `W<i>` i-th submitted worker) pass their schedule
+//!   points. A thread whose class is not next blocks (bounded); when the bound is hit the run is
+//!   marked `diverged` in the trace and continues unscheduled.
+//! * optional seeded jitter at the same points (`STYLUA_VERIF_JITTER=<seed>`).
+//!
+//! Environment: `STYLUA_VERIF_TRACE=<file>` (append-only event log), `STYLUA_VERIF_SCHED`,
+//! `STYLUA_VERIF_SCHED_TIMEOUT_MS` (default 400), `STYLUA_VERIF_JITTER`.
+
+use std::cell::RefCell;
+use std::io::Write;
+use std::sync::atomic::{AtomicI32, AtomicUsize, Ordering};
+use std::sync::{Condvar, Mutex};
+use std::time::{Duration, Instant};
+
+struct Controller {
+    sched: Vec<String>,
+    pos: usize,
+    diverged: bool,
+    seq: u64,
+    loaded: bool,
+    trace: Option<std::fs::File>,
+    timeout: Duration,
+    jitter: Option<u64>,
+}
+
+static CONTROLLER: Mutex<Controller> = Mutex::new(Controller {
+    sched: Vec::new(),
+    pos: 0,
+    diverged: false,
+    seq: 0,
+    loaded: false,
+    trace: None,
+    timeout: Duration::from_millis(400),
+    jitter: None,
+});
+static TURN: Condvar = Condvar::new();
+static NEXT_WORKER: AtomicUsize = AtomicUsize::new(0);
+
+thread_local! {
+    static CLASS: RefCell<Option<String>> = const { RefCell::new(None) };
+}
+
+fn my_class() -> String {
+    CLASS.with(|c| {
+        if let Some(c) = c.borrow().as_ref() {
+            return c.clone();
+        }
+        match std::thread::current().name() {
+            Some("main") => "M".to_string(),
+            _ => "?".to_string(),
+        }
+    })
+}
+
+/// Announce the class of the current thread (`"O"` for the output thread).
+pub fn set_class(class: &str) {
+    CLASS.with(|c| *c.borrow_mut() = Some(class.to_string()));
+}
+
+fn load(c: &mut Controller) {
+    if c.loaded {
+        return;
+    }
+    c.loaded = true;
+    if let Ok(s) = std::env::var("STYLUA_VERIF_SCHED") {
+        c.sched = s
+            .split(',')
+            .map(|x| x.trim().to_string())
+            .filter(|x| !x.is_empty())
+            .collect();
+    }
+    if let Ok(p) = std::env::var("STYLUA_VERIF_TRACE") {
+        c.trace = std::fs::OpenOptions::new()
+            .create(true)
+            .append(true)
+            .open(p)
+            .ok();
+    }
+    if let Some(ms) = std::env::var("STYLUA_VERIF_SCHED_TIMEOUT_MS")
+        .ok()
+        .and_then(|x| x.parse().ok())
+    {
+        c.timeout = Duration::from_millis(ms);
+    }
+    c.jitter = std::env::var("STYLUA_VERIF_JITTER")
+        .ok()
+        .and_then(|x| x.parse().ok());
+}
+
+fn log(c: &mut Controller, class: &str, what: &str) {
+    c.seq += 1;
+    let line = format!("{} {} {}\n", c.seq, class, what);
+    if let Some(f) = c.trace.as_mut() {
+        let _ = f.write_all(line.as_bytes());
+    }
+}
+
+fn jitter(c: &mut Controller) -> Option<Duration> {
+    let state = c.jitter.as_mut()?;
+    // splitmix64
+    *state = state.wrapping_add(0x9E37_79B9_7F4A_7C15);
+    let mut z = *state;
+    z = (z ^ (z >> 30)).wrapping_mul(0xBF58_476D_1CE4_E5B9);
+    z = (z ^ (z >> 27)).wrapping_mul(0x94D0_49BB_1331_11EB);
+    z ^= z >> 31;
+    match z % 4 {
+        0 => None,
+        1 => Some(Duration::from_micros(z >> 8 & 0xff)),
+        2 => Some(Duration::from_micros(z >> 8 & 0xfff)),
+        _ => Some(Duration::from_micros(z >> 8 & 0x3fff)),
+    }
+}
+
+/// Pass a schedule point as `class`, running `f` (the shadowed operation, which returns the text to
+/// log) while the controller lock is held, so that the trace order is the execution order.
+fn point<R>(class: &str, f: impl FnOnce() -> (R, String)) -> R {
+    // Optional jitter before taking the lock
+    let delay = {
+        let mut c = CONTROLLER.lock().unwrap_or_else(|e| e.into_inner());
+        load(&mut c);
+        jitter(&mut c)
+    };
+    if let Some(d) = delay {
+        std::thread::sleep(d);
+    }
+
+    let mut c = CONTROLLER.lock().unwrap_or_else(|e| e.into_inner());
+    let deadline = Instant::now() + c.timeout;
+    while !c.diverged && c.pos < c.sched.len() && c.sched[c.pos] != class {
+        let now = Instant::now();
+        if now >= deadline {
+            c.diverged = true;
+            let what = format!("diverged waiting-for={} at={}", c.sched[c.pos].clone(), c.pos);
+            log(&mut c, class, &what);
+            TURN.notify_all();
+            break;
+        }
+        c = TURN
+            .wait_timeout(c, deadline - now)
+            .unwrap_or_else(|e| e.into_inner())
+            .0;
+    }
+    let (r, what) = f();
+    log(&mut c, class, &what);
+    if !c.diverged && c.pos < c.sched.len() && c.sched[c.pos] == class {
+        c.pos += 1;
+    }
+    TURN.notify_all();
+    r
+}
+
+/// Called by the main thread when it submits a worker job: returns the job's index.
+pub fn next_worker_index() -> usize {
+    let idx = NEXT_WORKER.fetch_add(1, Ordering::SeqCst);
+    let mut c = CONTROLLER.lock().unwrap_or_else(|e| e.into_inner());
+    load(&mut c);
+    let class = my_class();
+    log(&mut c, &class, &format!("submit W{idx}"));
+    idx
+}
+
+/// Held by a worker for the whole job (format + send): jobs pass in schedule order.
+pub struct WorkerTurn {
+    class: String,
+}
+
+/// Called first thing in a worker job. Blocks until it is this job's turn.
+pub fn worker_turn(idx: usize) -> WorkerTurn {
+    let class = format!("W{idx}");
+    set_class(&class);
+    // wait for the turn, but do not consume it: it is consumed when the job ends
+    let mut c = CONTROLLER.lock().unwrap_or_else(|e| e.into_inner());
+    load(&mut c);
+    let deadline = Instant::now() + c.timeout;
+    while !c.diverged && c.pos < c.sched.len() && c.sched[c.pos] != class {
+        let now = Instant::now();
+        if now >= deadline {
+            c.diverged = true;
+            let what = format!("diverged waiting-for={} at={}", c.sched[c.pos].clone(), c.pos);
+            log(&mut c, &class, &what);
+            TURN.notify_all();
+            break;
+        }
+        c = TURN
+            .wait_timeout(c, deadline - now)
+            .unwrap_or_else(|e| e.into_inner())
+            .0;
+    }
+    log(&mut c, &class, "begin");
+    WorkerTurn { class }
+}
+
+impl Drop for WorkerTurn {
+    fn drop(&mut self) {
+        let mut c = CONTROLLER.lock().unwrap_or_else(|e| e.into_inner());
+        let what = if std::thread::panicking() {
+            "end panicked"
+        } else {
+            "end"
+        };
+        log(&mut c, &self.class, what);
+        if !c.diverged && c.pos < c.sched.len() && c.sched[c.pos] == self.class {
+            c.pos += 1;
+        }
+        TURN.notify_all();
+    }
+}
+
+/// Same method surface as the `AtomicI32` it replaces.
+pub struct VerifAtomicI32 {
+    inner: AtomicI32,
+}
+
+#[allow(dead_code)]
+impl VerifAtomicI32 {
+    pub const fn new(v: i32) -> Self {
+        Self {
+            inner: AtomicI32::new(v),
+        }
+    }
+
+    pub fn load(&self, order: Ordering) -> i32 {
+        point(&my_class(), || {
+            let v = self.inner.load(order);
+            (v, format!("load {v} {v}"))
+        })
+    }
+
+    pub fn store(&self, val: i32, _order: Ordering) {
+        point(&my_class(), || {
+            let old = self.inner.swap(val, Ordering::SeqCst);
+            ((), format!("store {old} {val}"))
+        })
+    }
+
+    pub fn swap(&self, val: i32, order: Ordering) -> i32 {
+        point(&my_class(), || {
+            let old = self.inner.swap(val, order);
+            (old, format!("swap {old} {val}"))
+        })
+    }
+
+    pub fn fetch_max(&self, val: i32, order: Ordering) -> i32 {
+        point(&my_class(), || {
+            let old = self.inner.fetch_max(val, order);
+            (old, format!("fetch_max {old} {}", old.max(val)))
+        })
+    }
+
+    pub fn fetch_min(&self, val: i32, order: Ordering) -> i32 {
+        point(&my_class(), || {
+            let old = self.inner.fetch_min(val, order);
+            (old, format!("fetch_min {old} {}", old.min(val)))
+        })
+    }
+
+    pub fn fetch_add(&self, val: i32, order: Ordering) -> i32 {
+        point(&my_class(), || {
+            let old = self.inner.fetch_add(val, order);
+            (old, format!("fetch_add {old} {}", old.wrapping_add(val)))
+        })
+    }
+
+    pub fn fetch_or(&self, val: i32, order: Ordering) -> i32 {
+        point(&my_class(), || {
+            let old = self.inner.fetch_or(val, order);
+            (old, format!("fetch_or {old} {}", old | val))
+        })
+    }
+
+    pub fn compare_exchange(
+        &self,
+        current: i32,
+        new: i32,
+        success: Ordering,
+        failure: Ordering,
+    ) -> Result<i32, i32> {
+        point(&my_class(), || {
+            let r = self.inner.compare_exchange(current, new, success, failure);
+            let what = match r {
+                Ok(old) => format!("compare_exchange {old} {new}"),
+                Err(old) => format!("compare_exchange_failed {old} {old}"),
+            };
+            (r, what)
+        })
+    }
+
+    pub fn fetch_update<F: FnMut(i32) -> Option<i32>>(
+        &self,
+        set_order: Ordering,
+        fetch_order: Ordering,
+        f: F,
+    ) -> Result<i32, i32> {
+        point(&my_class(), || {
+            let r = self.inner.fetch_update(set_order, fetch_order, f);
+            let now = self.inner.load(Ordering::SeqCst);
+            let what = match r {
+                Ok(old) => format!("fetch_update {old} {now}"),
+                Err(old) => format!("fetch_update_none {old} {old}"),
+            };
+            (r, what)
+        })
+    }
+}
